@@ -571,6 +571,19 @@ func (sc *SpecCtx) call(e *SExpr) (*Val, error) {
 			return nil, fmt.Errorf("result_of: no call matching %s seen before this point", selName(e.Args[0]))
 		}
 		return &Val{T: g.ghostTerm(sc.cur, gn), Ty: g.ghostTypes[gn]}, nil
+	case "arg_of":
+		// arg_of(selector, i): the i-th argument of the latest call matching selector
+		if sc.callee {
+			return nil, fmt.Errorf("call history of the callee is not visible at a call site")
+		}
+		if len(e.Args) != 2 || e.Args[1].Kind != SNum {
+			return nil, fmt.Errorf("arg_of(selector, index)")
+		}
+		gn := fmt.Sprintf("$arg:%s:%s", selName(e.Args[0]), e.Args[1].Name)
+		if _, ok := g.ghostSorts[gn]; !ok {
+			return nil, fmt.Errorf("arg_of: no call matching %s with argument %s in this function", selName(e.Args[0]), e.Args[1].Name)
+		}
+		return &Val{T: g.ghostTerm(sc.cur, gn), Ty: g.ghostTypes[gn]}, nil
 	case "fresh":
 		x, err := argv(0)
 		if err != nil {
@@ -659,6 +672,21 @@ func (sc *SpecCtx) call(e *SExpr) (*Val, error) {
 		}
 		box, _ := g.st.boxFun(x.Ty)
 		return &Val{T: sx(box, x.T)}, nil
+	case "ptr":
+		// ptr(x, "*pkg.T"): the integer term x read as a reference of type *T
+		// (for uninterpreted prelude functions that denote heap objects)
+		x, err := argv(0)
+		if err != nil {
+			return nil, err
+		}
+		if len(e.Args) != 2 {
+			return nil, fmt.Errorf("ptr(x, \"*pkg.T\")")
+		}
+		t, err := g.typeByName(selName(e.Args[1]))
+		if err != nil {
+			return nil, err
+		}
+		return &Val{T: x.T, Ty: t}, nil
 	case "asptr":
 		// asptr(x, "*pkg.T"): the *T held by interface value x
 		x, err := argv(0)
@@ -818,6 +846,19 @@ func (sc *SpecCtx) lvalTargets(e *SExpr) ([]frameTarget, error) {
 			g.scalarComp(loc.Comp, loc.Ty)
 			return []frameTarget{{Comp: loc.Comp, Ref: loc.Ref, Idx: loc.Idx}}, nil
 		}
+		if d, ok := g.eng.defs[e.Name]; ok && d.Body != nil && len(d.Params) == len(e.Args) {
+			// a def that denotes a location: resolve its body with the arguments bound
+			sub := *sc
+			sub.env = map[string]*Val{}
+			for i, p := range d.Params {
+				v, err := sc.eval(e.Args[i])
+				if err != nil {
+					return nil, err
+				}
+				sub.env[p] = v
+			}
+			return sub.lvalTargets(d.Body)
+		}
 		if d, ok := g.eng.defs[e.Name]; ok && d.GhostMap != "" && len(e.Args) == 1 {
 			k, err := sc.eval(e.Args[0])
 			if err != nil {
@@ -872,18 +913,7 @@ func (g *Gen) typeIDByName(name string) (int, error) {
 }
 
 func (g *Gen) typeByName(name string) (types.Type, error) {
-	ptr := strings.HasPrefix(name, "*")
-	bare := strings.TrimPrefix(name, "*")
-	for _, t := range g.eng.allNamed {
-		if typeShort(t) == bare {
-			var tt types.Type = t
-			if ptr {
-				tt = types.NewPointer(t)
-			}
-			return tt, nil
-		}
-	}
-	return nil, fmt.Errorf("unknown type %q", name)
+	return g.eng.typeByName(name)
 }
 
 // heapWF: every reference stored in the heap of a state was allocated before that
